@@ -84,7 +84,7 @@ def check(ctx):
     ctx.rule("R13.2", "cupy kernel == the same sum (accelerated == direct)", 1)
     ctx.rule("R13.3", "both call sites pass (J_site, weighted areas, xi*sites, xi*edge_centers, output) in parameter order; J is the total current", 3)
     ctx.rule("R13.4", "Polyak step: dA = K - A_prev, v' = (1-beta) v + alpha dA, A' = A_prev + v', "
-                      "error = max(|dA_i| / max(|A'_i|, 1e-20))", 3)
+                      "error = max(|dA_i| / max(|A'_i|, 1e-20)); second and third iteration of one step continue from the latest values", 5)
     ctx.rule("R13.5", "accepted steps are converged steps: loop exits are {error < tolerance, raise on iteration bound, "
                       "not include_screening}; no exit by exhaustion; initial error is +inf (predicates on the 180 traces of update())", 3)
     ctx.rule("R13.6", "screening off: induced potential is passed through unchanged and starts as zeros", 2)
@@ -172,7 +172,7 @@ def polyak(ctx, fg):
     A_new, err = ret
     dA = K - Aprev
     v_new = (1 - beta) * v + alpha * dA
-    ctx.ob("R13.4", "velocity' == (1 - drag) * velocity + step_size * (K - A_prev)", len(vel) >= 2 and vel[-1] == v_new,
+    ctx.ob("R13.4", "velocity' == (1 - drag) * velocity + step_size * (K - A_prev)", len(vel) >= 1 and vel[-1] == v_new,
            detail=str(vel[-1]), where=fg.fq, construct="velocity update", loc=loc(fg, fg.node),
            message=f"velocity update is {vel[-1]}", consequence="the heavy-ball iteration uses swapped/incorrect step and drag")
     ctx.ob("R13.4", "A' == A_prev + velocity'", isinstance(A_new, Rat) and A_new == Aprev + v_new and vals[-1] == A_new,
@@ -183,6 +183,28 @@ def polyak(ctx, fg):
            detail={"got": str(err), "want": str(want_err)}, where=fg.fq, construct="screening_error", loc=loc(fg, fg.node),
            message=f"relative error is computed as {err}",
            consequence="the convergence test measures something else than the relative mismatch between iterate and kernel sum")
+
+
+    # the same function called again with the lists as the previous call left them (a second and a third screening iteration of
+    # one step): every call must continue from the *latest* iterate and velocity, and keep the lists bounded
+    A_last, v_last = A_new, v_new
+    for it in (2, 3):
+        Kn = T.real(f"K{it}")
+        me.attrs["new_A_induced"] = Kn
+        try:
+            A_n, _ = ip.call_function(fg, [me, T.real(f"J{it}"), vals, vel], {})
+        except Unsupported as e:
+            raise AnalysisError(f"get_induced_vector_potential (iteration {it}) outside the supported fragment: {e}")
+        v_want = (1 - beta) * v_last + alpha * (Kn - A_last)
+        ok = isinstance(A_n, Rat) and isinstance(v_want, Rat) and A_n == A_last + v_want and len(vel) >= 1 and vel[-1] == v_want and vals[-1] == A_n \
+            and len(vals) <= 3 and len(vel) <= 3
+        ctx.ob("R13.4", f"iteration {it} of one step continues from the latest iterate and velocity; the lists stay bounded", ok,
+               detail={"A": str(A_n)[:200], "want": str(A_last + v_want)[:200], "len(A_induced_vals)": len(vals), "len(velocity)": len(vel)},
+               where=fg.fq, construct=f"Polyak iteration {it}", loc=loc(fg, fg.node),
+               message=f"screening iteration {it} gives A = {str(A_n)[:160]}, expected {str(A_last + v_want)[:160]} (lists of length {len(vals)}, {len(vel)})",
+               consequence="from the second screening iteration of a step on, the heavy-ball update uses a stale velocity or iterate (an index into the running lists "
+                           "that is only right while they hold two entries): the iteration converges to something else, or not at all")
+        A_last, v_last = A_n, v_want
 
 
 def loop_discipline(ctx):
